@@ -279,3 +279,28 @@ Proof.
   - rewrite Hb at 1. rewrite looks_mbap_frame by assumption. f_equal. f_equal. lia.
   - rewrite Hb. cbn [length]. lia.
 Qed.
+
+(* the third classifier fact in the classifier's own terms: an accepted length is at least 8 *)
+Lemma looks_exact_min b n e : looks_like (exact b) false = Ok (n, e) -> n <> 0 -> 8 <= n.
+Proof.
+  intros H Hn. destruct (Nat.lt_ge_cases (length b) 8) as [Hs|Hs].
+  - rewrite looks_exact_short in H by exact Hs. injection H as <- _. congruence.
+  - destruct (looks_exact_cases b Hs) as [E|[(m & E & (_ & _ & _ & Hm & _) & _)|(m & E & (_ & _ & _ & Hm & _) & _)]];
+      rewrite E in H; injection H as <- _; [congruence|exact Hm|exact Hm].
+Qed.
+Lemma looks_exact_total b : exists n e, looks_like (exact b) false = Ok (n, e).
+Proof.
+  destruct (Nat.lt_ge_cases (length b) 8) as [Hs|Hs].
+  - rewrite looks_exact_short by exact Hs. eauto.
+  - destruct (looks_exact_cases b Hs) as [E|[(m & E & _)|(m & E & _)]]; rewrite E; eauto.
+Qed.
+
+(* a header announcing a 1-byte PDU of a function other than 17 is "not Modbus TCP" for the
+   classifier, whatever the function code *)
+Lemma looks_one_byte_pdu h0 h1 u fc rest :
+  fc <> 17 -> looks_like (exact (h0 :: h1 :: 0 :: 0 :: 0 :: 2 :: u :: fc :: rest)) false = Ok (0, Some ENotTCP).
+Proof.
+  intros H. rewrite looks_exact_cons. unfold looks8. cbn [N.eqb andb negb be16].
+  replace (0 * 256 + 2 <? 3) with true by lia.
+  replace ((0 * 256 + 2 =? 2) && (fc =? 17)) with false by lia. reflexivity.
+Qed.
